@@ -371,6 +371,10 @@ fn map_indexes(
     indexes: &[usize],
     tree_depth: usize,
 ) -> Result<BTreeMap<usize, usize>, MerkleTreeError> {
+    // the depth may come from an untrusted proof; a tree cannot have 2^64 or more leaves
+    if tree_depth >= usize::BITS as usize {
+        return Err(MerkleTreeError::InvalidProof);
+    }
     let num_leaves = 2usize.pow(tree_depth as u32);
     let mut map = BTreeMap::new();
     for (i, index) in indexes.iter().cloned().enumerate() {
@@ -420,11 +424,14 @@ impl<H: Hasher> VectorCommitment<H> for MerkleTree<H> {
     }
 
     fn get_proof_domain_len(proof: &Self::Proof) -> usize {
-        1 << proof.len()
+        // a proof with 64 or more nodes cannot belong to any tree
+        u32::try_from(proof.len()).ok().and_then(|len| 1usize.checked_shl(len)).unwrap_or(0)
     }
 
     fn get_multiproof_domain_len(proof: &Self::MultiProof) -> usize {
-        1 << proof.depth
+        // the depth is read from an untrusted proof; report an impossible (zero) domain length
+        // instead of overflowing the shift when it is out of range
+        1usize.checked_shl(proof.depth as u32).unwrap_or(0)
     }
 
     fn open(&self, index: usize) -> Result<(H::Digest, Self::Proof), Self::Error> {
